@@ -93,9 +93,11 @@ func newTerminal(f Frontend, backend Backend, mode TextReadMode) *terminal {
 }
 
 func (t *terminal) SetFrontend(f Frontend) {
-	t.frontend = f
-	t.mainScreen.SetFrontend(f)
-	t.altScreen.SetFrontend(f)
+	t.WithLock(func() {
+		t.frontend = f
+		t.mainScreen.SetFrontend(f)
+		t.altScreen.SetFrontend(f)
+	})
 }
 
 // func NewNoPTY(f Frontend) Terminal {
@@ -144,8 +146,15 @@ type winsize struct {
 }
 
 func (t *terminal) Resize(w, h int) error {
-	t.mainScreen.setSize(w, h)
-	t.altScreen.setSize(w, h)
+	// The read loop mutates the buffers under the lock; so must a resize (it
+	// also calls the frontend, which is promised the lock).
+	t.WithLock(func() {
+		t.mainScreen.setSize(w, h)
+		t.altScreen.setSize(w, h)
+		// Both buffers reported their rendition, and either cursor may have
+		// moved: leave the frontend with the values of the active buffer.
+		t.announceScreen()
+	})
 
 	if t.backend == nil {
 		return nil
@@ -228,7 +237,13 @@ const (
 // x and y should start at 1
 // wheel events should use btn1 for wheel up, btn2 for wheel down, true for press, and M_wheel for mods
 func (t *terminal) SendMouseRaw(btn MouseBtn, press bool, mods MouseFlag, x, y int) error {
-	switch t.viewInts[VIMouseMode] {
+	// the modes are changed by the read loop under the lock
+	var mouseMode, mouseEncoding int
+	t.WithLock(func() {
+		mouseMode = t.viewInts[VIMouseMode]
+		mouseEncoding = t.viewInts[VIMouseEncoding]
+	})
+	switch mouseMode {
 	case MMNone:
 		return nil
 	case MMPress:
@@ -246,7 +261,6 @@ func (t *terminal) SendMouseRaw(btn MouseBtn, press bool, mods MouseFlag, x, y i
 	case MMPressReleaseMoveAll:
 	}
 
-	mouseEncoding := t.viewInts[VIMouseEncoding]
 	switch mouseEncoding {
 	case MEX10:
 		btnByte := (byte(btn) & mWhichBtn) | byte(mods)
